@@ -276,7 +276,16 @@ def _parser_memo(R):
                 elif inrv:
                     rd.append("%s:%d" % (f.file, st["line"]))
         if wr and rd:
-            bad.append((n, wr[0], rd[0]))
+            # a statistics counter (`n += 1`, printed under a debug flag) is written and read but decides nothing
+            from . import effects as E
+            decides = False
+            for f in P.fns.values():
+                if f.target == "lib" and not f.derived and f.spath.startswith("sqlgrep::parsing::parser::") and \
+                        E.taint_sinks(f, lambda pl, n_=n: E._self_field_place(pl, {n_})):
+                    decides = True
+                    break
+            if decides:
+                bad.append((n, wr[0], rd[0]))
     if bad:
         for n, w, r_ in bad[:2]:
             R.violation("C20.memo", "Parser|%s" % n, "Parser.%s is filled while parsing (%s) and consulted while parsing (%s): a clause is "
